@@ -520,7 +520,7 @@ pub fn families() -> Vec<Box<dyn Family>> {
         ),
         family(
             "many_edits",
-            "line texts with MANY SEPARATE CHANGES: 6000..7500 hunks (thorough up to 30000) between otherwise distinct lines - more than 10000 raw edit calls; every 7th hunk is one the clean-up has to reshape (`q s t` -> `s i s t`) x {Myers, Patience}; and Lcs on a pure block deletion / insertion of 10100..13000 lines next to such a hunk (one raw call per line) x {lines, diff_slices}",
+            "line texts with MANY SEPARATE CHANGES: 6000..7500 hunks (thorough up to 9000) between otherwise distinct lines - more than 10000 raw edit calls; every 7th hunk is one the clean-up has to reshape (`q s t` -> `s i s t`) x {Myers, Patience}; and Lcs on a pure block deletion / insertion of 10100..13000 lines next to such a hunk (one raw call per line) x {lines, diff_slices}",
             false,
             1,
             |cfg| if cfg.tiny { 1 } else { cfg.tier.pick(3, 24) },
@@ -551,7 +551,7 @@ pub fn families() -> Vec<Box<dyn Family>> {
                     text_case(&ta, &tb, &[0, 5], &[Algorithm::Lcs], out);
                     return;
                 }
-                let hunks = if cfg.tiny { 8 } else { rng.range(6000, cfg.tier.pick(7500, 30_000)) };
+                let hunks = if cfg.tiny { 8 } else { rng.range(6000, cfg.tier.pick(7500, 9_000)) };
                 let (a, b, _) = gen::many_hunks_pair(hunks);
                 let (a, b) = if rng.chance(1, 2) { (a, b) } else { (b, a) };
                 let alg = if idx % 2 == 0 { Algorithm::Myers } else { Algorithm::Patience };
